@@ -51,6 +51,24 @@ def run(args):
         with open(p, 'w') as f:
             f.write(A.module_text(mod))
         corpus.append(('gen%d' % i, [p], True))
+    # printer alphabets: every string over {a, "} of length <= 4 as DEFAULT, value assignment and single-value constraint (quote doubling),
+    # and one module with each value-notation / constraint form that asn1c -E prints
+    strs = ['']
+    for n in range(1, 5):
+        strs += [''.join(x) for x in itertools.product('a"', repeat=n)]
+    mem, lines = [], []
+    for i, sv in enumerate(strs):
+        q = '"' + sv.replace('"', '""') + '"'
+        mem.append('  m%d IA5String DEFAULT %s' % (i, q))
+        lines.append('v%d IA5String ::= %s' % (i, q))
+        lines.append('C%d ::= IA5String (%s)' % (i, q))
+    p = os.path.join(work, 'printq.asn1')
+    with open(p, 'w') as f:
+        f.write('PrintQ DEFINITIONS AUTOMATIC TAGS ::= BEGIN\nS ::= SEQUENCE {\n' + ',\n'.join(mem) + '\n}\n' + '\n'.join(lines) + '\nEND\n')
+    corpus.append(('printq', [p], True))
+    p = os.path.join(work, 'printv.asn1')
+    shutil.copy(os.path.join(build.VERIF, 'gen', 'printer_values.asn1'), p)
+    corpus.append(('printv', [p], True))
     shipped = sorted(glob.glob(os.path.join(build.REPO, 'tests/tests-asn1c-compiler/*-OK.asn1'))) + sorted(glob.glob(os.path.join(build.REPO, 'examples/*.asn1')))
     for p in shipped:
         try:
